@@ -3,7 +3,7 @@ from .sched_common import run_sched_property, replay_sched
 
 
 def run(ck):
-    run_sched_property(ck, "C02", sched.oracle_c02, "Properties/C02.v", 120, 2500, analyzer=True)
+    run_sched_property(ck, "C02", sched.oracle_c02, "Properties/C02.v", 120, 700, analyzer=True)
 
 
 def replay(rec):
